@@ -10,6 +10,7 @@ import (
 	"sync/atomic"
 
 	"github.com/sirupsen/logrus"
+	"github.com/taskctl/taskctl/internal/verifsim/vsync"
 	"time"
 
 	"github.com/taskctl/taskctl/pkg/executor"
@@ -38,6 +39,8 @@ type IntegProfile struct {
 	CancelAfter   bool   // fire remaining Cancels after everything returned
 	LogYield      bool   // log lines emitted inside Cancel are park points
 	WMidpass      int    // percent of steps that arm a park in the middle of the next scheduling pass
+	PreemptPct    int    // percent of releases after which the released goroutine is preempted at one of its next function entries
+	PreemptDepth  int    // the preemption lands within this many function entries
 	Barrier       bool   // C04 at INTEG level: no process completes until every eligible stage has a command in flight
 	Checks        map[string]bool
 }
@@ -248,8 +251,23 @@ func (e *integEngine) buildGraph(g *GraphSpec) (*scheduler.ExecutionGraph, error
 	return eg, nil
 }
 
+// preemptPark: hook of the preemption points (vsync.Preempt) the build inserted at the entry of
+// every function of taskctl's own packages.
+func (e *integEngine) preemptPark(name string) {
+	who := e.pl.identity(curGID())
+	if who == "" {
+		who = "-"
+	}
+	key := who + "/" + name
+	e.c.Yield("preempt", fmt.Sprintf("%s#%d", key, e.pl.nextOcc("preempt:"+key)), nil)
+}
+
 func (e *integEngine) installHooks() {
 	c := e.c
+	if e.prof.PreemptPct > 0 && preemptPoints > 0 {
+		vsync.Arm(0, 0)
+		vsync.PreemptHook.Store(e.preemptPark)
+	}
 	if e.prof.LogYield {
 		logrus.SetLevel(logrus.DebugLevel)
 		logYield.Store(e.logPark)
@@ -413,6 +431,8 @@ func (e *integEngine) logPark(msg string) {
 }
 
 func (e *integEngine) removeHooks() {
+	vsync.Arm(0, 0)
+	vsync.PreemptHook.Store((func(string))(nil))
 	if e.prof.LogYield {
 		logYield.Store((func(string))(nil))
 		logrus.SetLevel(logrus.PanicLevel)
@@ -448,8 +468,12 @@ func RunIntegWorld(c *Ctl, prof *IntegProfile, w *IntegWorld, res *RunResult) *i
 	if !w.ViaConfig {
 		e.build()
 	}
-	e.sink = &recSink{c: c, name: "stdout", cur: func() string { return e.writing.Load().(string) }}
-	e.esink = &recSink{c: c, name: "stderr", cur: func() string { return e.writing.Load().(string) }}
+	// a write to the sink is attributed to the execution (directly run task / stage) whose
+	// goroutine performs it - not to "the chunk being delivered": with preemption points inside
+	// the decorators several writers can be in the middle of a Write
+	who := func() string { return e.pl.identity(curGID()) }
+	e.sink = &recSink{c: c, name: "stdout", cur: who}
+	e.esink = &recSink{c: c, name: "stderr", cur: who}
 	e.pl.onWrite = func(key string) { e.writing.Store(key) }
 	// the output package's globals (close channel, shared cockpit) must belong to this bubble
 	output.VerifReset()
@@ -930,7 +954,7 @@ func (e *integEngine) barrier() bool {
 		for {
 			var p *Park
 			for _, q := range e.eligible() {
-				if q.Kind == "stage-start" || q.Kind == "run-enter" || q.Kind == "ctx-up-enter" || q.Kind == "driver" {
+				if q.Kind == "stage-start" || q.Kind == "run-enter" || q.Kind == "ctx-up-enter" || q.Kind == "driver" || q.Kind == "preempt" {
 					p = q
 					break
 				}
@@ -1042,6 +1066,9 @@ func (e *integEngine) loop() {
 	prof := e.prof
 	for c.Steps = 0; ; c.Steps++ {
 		e.observe()
+		if vsync.Armed() > 0 {
+			vsync.Arm(0, 0) // the countdown did not run out before everything blocked again
+		}
 		if e.finished {
 			break
 		}
@@ -1109,6 +1136,12 @@ func (e *integEngine) loop() {
 		k := c.Ch.Weighted(w, "integ-act")
 		switch {
 		case k < len(parks):
+			if prof.PreemptPct > 0 && preemptPoints > 0 && parks[k].Kind != "finish" && c.Ch.Bool(prof.PreemptPct, 100, "preempt") {
+				// the goroutine released now is taken off the processor again at one of its next
+				// function entries inside taskctl's code
+				vsync.Arm(1+c.Ch.Choose(prof.PreemptDepth, "preempt-depth"), parks[k].GID)
+				c.Count("preemptions_armed")
+			}
 			e.releasePark(parks[k])
 		case k == len(parks):
 			c.Sleep(e.nextWake())
